@@ -567,3 +567,60 @@ def cfg_replay(repo, scenario_json):
         return "not run: " + err
     p = subprocess.run([exe, "replay", scenario_json], stdout=subprocess.PIPE, stderr=subprocess.PIPE, timeout=60)
     return p.stdout.decode("utf8", "replace").strip()
+
+
+def ndl_search(repo, prop, tier, seed=1):
+    """C18 bounded replay (replay/ndl_driver): generated network descriptions and single-point mutations on the real des-net-utils crate: never a panic."""
+    t0 = time.time()
+    os.makedirs(WORK_BASE, exist_ok=True)
+    lockf = open(os.path.join(WORK_BASE, "rt_driver.lock"), "w")
+    fcntl.flock(lockf, fcntl.LOCK_EX)
+    try:
+        count = 1000000 if tier == "thorough" else 40000
+        res = {"what": "bounded replay of the totality half of C18 on the real `des-net-utils` crate: %d seeded descriptions generated from one NDL template (an interface, leaf types with gates and a gate cluster, inheritance, a generic type with one bound, a composite with two submodule clusters of size 2..4, cluster-to-cluster / indexed / atom connections, a link, an entry type using the generic type with a conforming argument) of which three quarters carry ONE mutation out of 24 (closing bracket without opening bracket in a gate and in a submodule name, unknown type / gate / link / entry / inherit / bound, index out of bounds on a submodule cluster and on a gate cluster, zero-sized and non-numeric cluster, unequal cluster sizes, dependency cycle, type clause without closing parenthesis in a submodule type and in a module head, malformed generic argument, duplicate generic binding, generic / non-conforming / unknown / missing / surplus / badly separated type arguments). Each text is parsed (serde_yml -> ndl::def::Def) and elaborated (ndl::transform) under catch_unwind: a panic is a mismatch; an unmutated description must elaborate to Ok with the declared number of submodules under the entry module. NOT examined: that the elaborated network and the simulation built from it match the description" % count,
+               "bound": "%d random descriptions; seed %d" % (count, seed), "labelled": "bounded", "counts_as_proof": False}
+        exe, err = _build_rt(repo, "ndl_driver")
+        if exe is None:
+            res.update({"status": "not_run", "reason": "driver does not build against this tree: " + err, "wall_s": round(time.time() - t0, 2)})
+            return res
+        try:
+            p = subprocess.run([exe, "search", str(count), str(seed)], stdout=subprocess.PIPE, stderr=subprocess.PIPE, timeout=900)
+        except subprocess.TimeoutExpired:
+            res.update({"status": "mismatch", "mismatch": {"mismatch": True, "kind": "ndl-does-not-return", "props": "C18", "expected": "every description is answered", "observed": "no result within 900 s"}, "wall_s": round(time.time() - t0, 2)})
+            return res
+        line = (p.stdout.decode("utf8", "replace").strip().splitlines() or ["{}"])[-1]
+        try:
+            j = json.loads(line)
+        except Exception:
+            j = {}
+        res["wall_s"] = round(time.time() - t0, 2)
+        res["cmd"] = "ndl_driver search %d %d   (built from replay/ndl_driver against %s/des-net-utils)" % (count, seed, repo)
+        if j.get("mismatch"):
+            res.update({"status": "mismatch", "mismatch": j})
+        elif "scenarios" in j:
+            res.update({"status": "no_mismatch", "scenarios": j["scenarios"], "sample": j.get("sample")})
+        else:
+            res.update({"status": "not_run", "reason": "driver crashed: " + p.stderr.decode("utf8", "replace")[-300:]})
+        return res
+    finally:
+        if repo != "/repo" and not os.environ.get("VERIF_KEEP_CACHE"):
+            tag = hashlib.sha1(repo.encode()).hexdigest()[:8]
+            shutil.rmtree(os.path.join(WORK_BASE, "ndl_driver-" + tag), ignore_errors=True)
+            shutil.rmtree(os.path.join(WORK_BASE, "des-drivers-target-" + tag), ignore_errors=True)
+        fcntl.flock(lockf, fcntl.LOCK_UN)
+        lockf.close()
+
+
+def ndl_replay(repo, text):
+    exe, err = _build_rt(repo, "ndl_driver")
+    if exe is None:
+        return "not run: " + err
+    import tempfile
+    with tempfile.NamedTemporaryFile("w", suffix=".yml", delete=False, dir=WORK_BASE) as f:
+        f.write(text)
+        name = f.name
+    try:
+        p = subprocess.run([exe, "replay", name], stdout=subprocess.PIPE, stderr=subprocess.PIPE, timeout=60)
+        return p.stdout.decode("utf8", "replace").strip()
+    finally:
+        os.unlink(name)
